@@ -36,6 +36,26 @@ use crate::simnode::{GetR, SendR, SimNode};
 
 pub const BOOT_BLOCKS: usize = 100;
 
+/// The blocks `main.rs` hands to `Watcher::new`, as the extractor read them from the source (`Gen.Calls.watcherBoot`,
+/// passed on by `./check`): the harness cannot run `main`, so it reproduces that one argument. `list` is newest first.
+pub fn watcher_boot_slice<T>(list: &[T]) -> &[T] {
+    let arg = std::env::var("VERIF_WATCHER_BOOT_ARG").unwrap_or_else(|_| "&last_n_blocks[0..6]".into());
+    let range = arg.find('[').and_then(|i| {
+        let inner = arg[i + 1..].trim_end_matches(']');
+        let mut it = inner.split("..");
+        let a = it.next()?.trim();
+        let b = it.next()?.trim().trim_start_matches('=');
+        let a: usize = if a.is_empty() { 0 } else { a.parse().ok()? };
+        let b: usize = if b.is_empty() { list.len() } else { b.parse().ok()? };
+        Some((a.min(list.len()), b.min(list.len())))
+    });
+    match range {
+        Some((a, b)) if a <= b => &list[a..b],
+        _ if !arg.contains('[') => list,
+        _ => &list[0..6.min(list.len())],
+    }
+}
+
 #[derive(Clone, Debug, PartialEq, Eq)]
 pub enum BlobSpec {
     /// encrypt(penalty tx number, dispute tx number) with the given total blob length
@@ -336,7 +356,7 @@ impl TowerSys {
         let watcher = Arc::new(Watcher::new(
             gatekeeper.clone(),
             responder.clone(),
-            &last_n[0..6],
+            watcher_boot_slice(&last_n),
             height,
             tk.sk,
             TowerId(tk.pk),
